@@ -67,6 +67,10 @@ def forms(ch, T, kT, U, kU):
     L.append(('chain-assign', 'c = b = a;'))
     L.append(('stmt-expr', '({ a; b; });'))
     L.append(('stmt-expr-value', 'c = ({ b; a; });'))
+    L.append(('cond-void-arm-taken', 'k ? (void)0 : a;'))
+    L.append(('cond-value-arm-of-void-cond-taken', '!k ? (void)0 : a;'))
+    L.append(('cond-void-both', 'k ? (void)a : (void)b;'))
+    L.append(('stmt-expr-continue', '({ if (k) continue; a; });'))      # jump out of a statement expression with nothing pending (D74 is the pending case)
     L.append(('for-clauses', 'for (a; q < 1; b) q++; q = 0;'))
     L.append(('call-nested', 'c = @id(@id(@f()));'))
     L.append(('cond-assign', 'c = k ? a : @f();'))
@@ -116,7 +120,8 @@ class C20:
             'expression evaluated afterwards and every printed value must equal gcc and clang. non-trivial = result type is long double or an aggregate, or the form pushes a temporary, and N >= 8; '
             'distinct by (form, T, U, N).')
     assumptions = ['gcc/clang leave rsp and the x87 stack balanced around a statement (they print the same probe values before and after)',
-                   'D45 (more than 8 pending long double temporaries overflow the x87 register stack) recorded: expressions here nest at most 3 long double temporaries']
+                   'D45 (more than 8 pending long double temporaries overflow the x87 register stack) recorded: expressions here nest at most 3 long double temporaries',
+                   'D74 (a jump out of a statement expression while temporaries of the enclosing expression are pushed leaves them on the stack) recorded: jumps out of statement expressions are generated only at statement level']
 
     def budget(self, tier):
         return 1600 if tier == 'quick' else 20000
